@@ -670,3 +670,212 @@ def dotnet_blob_cases(r, d, per_seed=60):
         ops.append("X%d:%s" % (x + hs, body.hex()))
         out.append((",".join(ops), "dotnet-signature:" + form))
     return out
+
+
+# ---------------------------------------------------------------------------------------------------------------------
+# Table entries whose RVA / offset does not map anywhere: first, middle and last entry of every table the parsers walk
+UNMAPPED = [0x7ff00000, 0x0fff0000, 0x7fffffff]
+
+
+def pe_table_entries(d):
+    """-> {table label: [(off, width)]} pointer-like entries of the RVA-driven tables of a PE (all entries, not only the first few)"""
+    pe = PEInfo(d)
+    out = {}
+    if not pe.ok:
+        return out
+    n = len(d)
+    W = 8 if pe.plus else 4
+    def thunks(rva, lab):
+        o = pe.off(rva) if rva else None
+        if o is None: return
+        j, L = 0, []
+        while o + W * (j + 1) <= n and d[o + W * j:o + W * (j + 1)] != bytes(W) and j < 4096:
+            L.append((o + W * j, 4)); j += 1
+        if L: out[lab] = L
+    def D(i):
+        return pe.off(pe.dirs[i][0]) if i < len(pe.dirs) and pe.dirs[i][0] else None
+    im = D(1)
+    if im is not None:
+        k = 0
+        while im + 20 * (k + 1) <= n and d[im + 20 * k:im + 20 * (k + 1)] != bytes(20) and k < 64:
+            o = im + 20 * k
+            thunks(u32(d, o) or u32(d, o + 16), "import%d.names" % k)
+            out.setdefault("import.descriptors.Name", []).append((o + 12, 4))
+            out.setdefault("import.descriptors.OriginalFirstThunk", []).append((o, 4))
+            k += 1
+    dl = D(13)
+    if dl is not None:
+        k = 0
+        while dl + 32 * (k + 1) <= n and d[dl + 32 * k:dl + 32 * (k + 1)] != bytes(32) and k < 64:
+            o = dl + 32 * k
+            thunks(u32(d, o + 16), "delay%d.names" % k)
+            thunks(u32(d, o + 12), "delay%d.iat" % k)
+            out.setdefault("delay.descriptors.Name", []).append((o + 4, 4))
+            out.setdefault("delay.descriptors.INT", []).append((o + 16, 4))
+            k += 1
+    ex = D(0)
+    if ex is not None:
+        nn, an, af, nf = u32(d, ex + 24) or 0, u32(d, ex + 32), u32(d, ex + 28), u32(d, ex + 20) or 0
+        ao = pe.off(an) if an else None
+        if ao is not None:
+            out["export.names"] = [(ao + 4 * j, 4) for j in range(min(nn, 4096)) if ao + 4 * j + 4 <= n]
+        fo = pe.off(af) if af else None
+        if fo is not None:
+            out["export.functions"] = [(fo + 4 * j, 4) for j in range(min(nf, 4096)) if fo + 4 * j + 4 <= n]
+    rs = D(2)
+    if rs is not None:
+        L = []
+        def rdir(o, depth):
+            if depth > 3 or o + 16 > n or len(L) > 512: return
+            cnt = (u16(d, o + 12) or 0) + (u16(d, o + 14) or 0)
+            for k in range(min(cnt, 64)):
+                eo = o + 16 + 8 * k
+                if eo + 8 > n: break
+                L.append((eo, 4)); L.append((eo + 4, 4))
+                v = u32(d, eo + 4)
+                if v & 0x80000000: rdir(rs + (v & 0x7fffffff), depth + 1)
+                elif rs + v + 16 <= n: L.append((rs + v, 4))
+        rdir(rs, 0)
+        if L: out["resource.entries"] = L
+    return out
+
+
+def unmapped_cases(r, d, fmt, fields):
+    """first / middle / last entry of every table set to a value that maps nowhere"""
+    out = []
+    tabs = pe_table_entries(d) if fmt in ("pe", "dotnet") else {}
+    if fmt in ("elf", "macho", "dex"):
+        groups = {}
+        for off, w, en, lab in fields:
+            if PTR_RX.search(lab) or "cmdsize" in lab or "val" in lab:
+                groups.setdefault(klass(lab), []).append((off, w, en))
+        for g, L in groups.items():
+            tabs[g] = L
+    for lab, L in sorted(tabs.items()):
+        idx = sorted({0, len(L) // 2, len(L) - 1})
+        for i in idx:
+            e = L[i]
+            off, w = e[0], e[1]
+            en = e[2] if len(e) > 2 else "<"
+            for v in ((UNMAPPED if lab.split('.')[0].rstrip('0123456789') in ('import', 'delay', 'export', 'resource') else UNMAPPED[:1]) if w >= 4 else [0xffff]):
+                top = (1 << (8 * w)) - 1
+                vv = v & top if w <= 4 else (v if r.random() < 0.5 else (1 << 63) + v)
+                out.append(("%s%d:%d:%x" % ("W" if en == "<" else "B", off, w, vv), "unmapped-entry:" + lab.split(".")[0].rstrip("0123456789")))
+    return out
+
+
+# ---------------------------------------------------------------------------------------------------------------------
+# .NET metadata tables (#~ stream, ECMA-335 II.22 / II.24.2.6): row-level mutations
+_T = ["Module", "TypeRef", "TypeDef", "FieldPtr", "Field", "MethodPtr", "MethodDef", "ParamPtr", "Param", "InterfaceImpl", "MemberRef", "Constant", "CustomAttribute",
+      "FieldMarshal", "DeclSecurity", "ClassLayout", "FieldLayout", "StandAloneSig", "EventMap", "EventPtr", "Event", "PropertyMap", "PropertyPtr", "Property",
+      "MethodSemantics", "MethodImpl", "ModuleRef", "TypeSpec", "ImplMap", "FieldRVA", "EncLog", "EncMap", "Assembly", "AssemblyProcessor", "AssemblyOS", "AssemblyRef",
+      "AssemblyRefProcessor", "AssemblyRefOS", "File", "ExportedType", "ManifestResource", "NestedClass", "GenericParam", "MethodSpec", "GenericParamConstraint"]
+_CODED = {"TypeDefOrRef": (2, ["TypeDef", "TypeRef", "TypeSpec"]), "HasConstant": (2, ["Field", "Param", "Property"]),
+          "HasCustomAttribute": (5, ["MethodDef", "Field", "TypeRef", "TypeDef", "Param", "InterfaceImpl", "MemberRef", "Module", "DeclSecurity", "Property", "Event", "StandAloneSig",
+                                     "ModuleRef", "TypeSpec", "Assembly", "AssemblyRef", "File", "ExportedType", "ManifestResource", "GenericParam", "GenericParamConstraint", "MethodSpec"]),
+          "HasFieldMarshal": (1, ["Field", "Param"]), "HasDeclSecurity": (2, ["TypeDef", "MethodDef", "Assembly"]),
+          "MemberRefParent": (3, ["TypeDef", "TypeRef", "ModuleRef", "MethodDef", "TypeSpec"]), "HasSemantics": (1, ["Event", "Property"]),
+          "MethodDefOrRef": (1, ["MethodDef", "MemberRef"]), "MemberForwarded": (1, ["Field", "MethodDef"]), "Implementation": (2, ["File", "AssemblyRef", "ExportedType"]),
+          "CustomAttributeType": (3, ["MethodDef", "MemberRef"]), "ResolutionScope": (2, ["Module", "ModuleRef", "AssemblyRef", "TypeRef"]),
+          "TypeOrMethodDef": (1, ["TypeDef", "MethodDef"])}
+_S = {"Module": "u2 S G G G", "TypeRef": "C:ResolutionScope S S", "TypeDef": "u4 S S C:TypeDefOrRef T:Field T:MethodDef", "FieldPtr": "T:Field", "Field": "u2 S B",
+      "MethodPtr": "T:MethodDef", "MethodDef": "u4 u2 u2 S B T:Param", "ParamPtr": "T:Param", "Param": "u2 u2 S", "InterfaceImpl": "T:TypeDef C:TypeDefOrRef",
+      "MemberRef": "C:MemberRefParent S B", "Constant": "u2 C:HasConstant B", "CustomAttribute": "C:HasCustomAttribute C:CustomAttributeType B", "FieldMarshal": "C:HasFieldMarshal B",
+      "DeclSecurity": "u2 C:HasDeclSecurity B", "ClassLayout": "u2 u4 T:TypeDef", "FieldLayout": "u4 T:Field", "StandAloneSig": "B", "EventMap": "T:TypeDef T:Event",
+      "EventPtr": "T:Event", "Event": "u2 S C:TypeDefOrRef", "PropertyMap": "T:TypeDef T:Property", "PropertyPtr": "T:Property", "Property": "u2 S B",
+      "MethodSemantics": "u2 T:MethodDef C:HasSemantics", "MethodImpl": "T:TypeDef C:MethodDefOrRef C:MethodDefOrRef", "ModuleRef": "S", "TypeSpec": "B",
+      "ImplMap": "u2 C:MemberForwarded S T:ModuleRef", "FieldRVA": "u4 T:Field", "EncLog": "u4 u4", "EncMap": "u4", "Assembly": "u4 u2 u2 u2 u2 u4 B S S",
+      "AssemblyProcessor": "u4", "AssemblyOS": "u4 u4 u4", "AssemblyRef": "u2 u2 u2 u2 u4 B S S B", "AssemblyRefProcessor": "u4 T:AssemblyRef",
+      "AssemblyRefOS": "u4 u4 u4 T:AssemblyRef", "File": "u4 S B", "ExportedType": "u4 u4 S S C:Implementation", "ManifestResource": "u4 u4 S C:Implementation",
+      "NestedClass": "T:TypeDef T:TypeDef", "GenericParam": "u2 u2 C:TypeOrMethodDef S", "MethodSpec": "C:MethodDefOrRef B", "GenericParamConstraint": "T:GenericParam C:TypeDefOrRef"}
+
+
+def dotnet_tables(d):
+    """-> dict(name -> dict(off=file offset of row 0, rows, size=row size, cols=[(col offset, width, kind)])) or None"""
+    pe = PEInfo(d)
+    t = None
+    for off, w, en, lab in (pe.F if pe.ok else []):
+        if lab == "tilde.Valid.lo":
+            t = off - 8
+    if t is None or t + 24 > len(d):
+        return None
+    heap = d[t + 6]
+    valid = u64(d, t + 8) or 0
+    rows, p = {}, t + 24
+    for i in range(64):
+        if valid >> i & 1:
+            if p + 4 > len(d): return None
+            if i < len(_T): rows[_T[i]] = u32(d, p)
+            else: return None
+            p += 4
+    ssz, gsz, bsz = (4 if heap & 1 else 2), (4 if heap & 2 else 2), (4 if heap & 4 else 2)
+    def width(c):
+        if c == "u2": return 2
+        if c == "u4": return 4
+        if c == "S": return ssz
+        if c == "G": return gsz
+        if c == "B": return bsz
+        if c.startswith("T:"): return 4 if rows.get(c[2:], 0) >= (1 << 16) else 2
+        bits, tabs = _CODED[c[2:]]
+        return 4 if max([rows.get(x, 0) for x in tabs] + [0]) >= (1 << (16 - bits)) else 2
+    out = {}
+    for i, name in enumerate(_T):
+        if name not in rows: continue
+        cols, o = [], 0
+        for c in _S[name].split():
+            w = width(c); cols.append((o, w, c)); o += w
+        out[name] = dict(off=p, rows=rows[name], size=o, cols=cols)
+        p += o * rows[name]
+        if p > len(d): return None
+    out["_heaps"] = dict(rows=rows)
+    return out
+
+
+def dotnet_table_cases(r, d, per_table=10, only=None):
+    """row-level mutations: a column of the first / middle / last row set to 0, 1, last, last+1, max; a row made a copy of its predecessor (several rows then
+    share an owner / parent) with one column invalid; the same with the predecessor changed"""
+    T = dotnet_tables(d)
+    if not T:
+        return []
+    rows_of = T["_heaps"]["rows"]
+    out = []
+    for name in _T:
+        t = T.get(name)
+        if not t or t["rows"] == 0 or t["size"] == 0 or (only is not None and name not in only):
+            continue
+        n = t["rows"]
+        def vals(c, w):
+            top = (1 << (8 * w)) - 1
+            if c.startswith("T:"):
+                m = rows_of.get(c[2:], 0); return [0, 1, m, m + 1, top]
+            if c.startswith("C:"):
+                bits, tabs = _CODED[c[2:]]
+                m = max([rows_of.get(x, 0) for x in tabs] + [0])
+                return [0, 1 << bits, (m << bits) | 0, ((m + 1) << bits) | 0, ((1 << bits) - 1), top, (1 << bits) | (len(tabs) & ((1 << bits) - 1))]
+            if c in ("S", "B", "G"):
+                return [0, 1, top, top - 1, 0x7fff & top, len(d) & top]
+            return [0, 1, top, top >> 1]
+        made = 0
+        idxs = sorted({0, n // 2, n - 1})
+        for i in idxs:
+            ro = t["off"] + i * t["size"]
+            for (co, w, c) in t["cols"]:
+                if made >= per_table * 2: break
+                v = r.choice(vals(c, w))
+                out.append(("W%d:%d:%x" % (ro + co, w, v), "dotnet-row:" + name)); made += 1
+        # shared owner: row i := row i-1 (several rows then share an owner / parent) with ONE column made invalid — systematically every column x value;
+        # and the reverse (the earlier row invalid, the later valid)
+        if n >= 2 and (only is None or name in only):
+            made = 0
+            for i in sorted({1, n // 2 if n // 2 >= 1 else 1, n - 1}):
+                for (co, w, c) in sorted(t["cols"], key=lambda x: (0 if x[2] in ("S", "B", "G") else 1 if x[2][0] in "CT" else 2)):   # heap indices first
+                    for v in vals(c, w)[:3]:
+                        for (src, dst) in ((i - 1, i), (i, i - 1)):
+                            if made >= per_table * 8: break
+                            so, do = t["off"] + src * t["size"], t["off"] + dst * t["size"]
+                            row = bytearray(d[so:so + t["size"]])
+                            row[co:co + w] = (v & ((1 << (8 * w)) - 1)).to_bytes(w, "little")
+                            if t["cols"][0][2] == "u2" and co != 0:      # GenericParam.Number / Param.Flags …: a different number within the shared owner
+                                row[0:2] = ((int.from_bytes(row[0:2], "little") + 1) & 0xffff).to_bytes(2, "little")
+                            out.append(("X%d:%s" % (do, bytes(row).hex()), "dotnet-row-shared:" + name)); made += 1
+    return out
